@@ -24,7 +24,7 @@ SHIMS = {
 PROPS = {
     'C03': dict(
         title='origin map',
-        units=['pt', 'arms', 'expand', 'rtmu', 'glue'],
+        units=['pt', 'arms', 'rtmu', 'glue'],
         shims=['A-btree', 'A-str', 'A-path/fs', 'A-arith', 'A-glue'],
         design='DESIGN.md 3/C03',
         technique='contract-based deductive verification (Verus) of the real PreprocessedText/Range code extracted from /repo on every run',
@@ -94,7 +94,7 @@ PROPS['C04'] = dict(
 )
 PROPS['C05'] = dict(
     title='macro expansion',
-    units=['arms', 'bind', 'depth', 'split', 'expand', 'rtmu'],
+    units=['arms', 'depth', 'split', 'rtmu'],
     shims=['A-glue', 'A-hashmap', 'A-str', 'A-arith'],
     design='DESIGN.md 3/C05',
     technique='contract-based deductive verification (Verus) of the verbatim TextMacroUsage arm and of the actual/formal binding block of resolve_text_macro_usage',
@@ -124,7 +124,7 @@ PROPS['C10'] = dict(
 )
 PROPS['C11'] = dict(
     title='define table',
-    units=['arms', 'prologue', 'expand', 'rtmu', 'wrap', 'depth', 'glue'],
+    units=['arms', 'prologue', 'rtmu', 'wrap', 'depth', 'glue'],
     shims=['A-glue', 'A-hashmap', 'A-str'],
     design='DESIGN.md 3/C11',
     technique='contract-based deductive verification (Verus) of the verbatim `define / `undef / `undefineall arms and of the table adoption at include and expansion',
@@ -192,7 +192,7 @@ PROPS['C17'] = dict(
 )
 PROPS['C08'] = dict(
     title='totality',
-    units=['pt', 'wrap', 'iter', 'conv', 'derive', 'getstr', 'arms', 'depth', 'bind', 'pphelp', 'display', 'prologue', 'split', 'loc', 'expand', 'rtmu', 'glue', 'kwstack'],
+    units=['pt', 'wrap', 'iter', 'conv', 'derive', 'getstr', 'arms', 'depth', 'pphelp', 'display', 'prologue', 'split', 'loc', 'rtmu', 'glue', 'kwstack'],
     engines=[dict(module='gvc.engine', args=dict(analyses=('panics', 'faithful', 'nullable')))],
     shims=['A-btree', 'A-str', 'A-path/fs', 'A-node', 'A-vec', 'A-nom', 'A-glue'],
     design='DESIGN.md 3/C08',
